@@ -175,6 +175,13 @@ def _meta(o):
     return tuple(out)
 
 
+def _container_snapshot(cont):
+    """Identity of a caller-owned list / dict of columns: same length, keys and entry objects."""
+    if isinstance(cont, dict):
+        return ("dict", tuple(cont.keys()), tuple(id(v) for v in cont.values()))
+    return ("list", len(cont), tuple(id(v) for v in cont))
+
+
 def fingerprints(owned_list):
     return [(executor.fingerprint(o.owners), _meta(o)) for o in owned_list]
 
@@ -372,6 +379,7 @@ def gen_scenario(scen: Choices, cls, cfg):
     cut_lens = gen._cuts(scen, n)
     mask_readonly = bool(scen.draw(2))
     client_index = scen.chance(1, 3)  # pandas inputs share one named, non-default index object
+    values_form = scen.weighted([(1, "dict"), (1, "list")])
     max_steps = 6 if tier == "quick" else 8
     nsteps = 1 + scen.draw(max_steps)
     steps = []
@@ -404,7 +412,7 @@ def gen_scenario(scen: Choices, cls, cfg):
 
     return {
         "ds": ds, "sort": sort, "st": st, "key_cont": key_cont, "val_cont": val_cont, "cut_lens": cut_lens,
-        "mask_readonly": mask_readonly, "steps": steps, "fault": fault, "fault_step": fault_step, "client_index": client_index,
+        "mask_readonly": mask_readonly, "steps": steps, "fault": fault, "fault_step": fault_step, "client_index": client_index, "values_form": values_form,
     }
 
 
@@ -491,10 +499,34 @@ def execute(sc, sched: Choices, cls, cfg):
             return {"k": ks[0]}
         return ks[0] if len(ks) == 1 else ks
 
+    containers = {}  # the client's own list / dict of value columns, reused across calls
+
     def values_obj(cols):
         if len(cols) == 1:
             return owned_vals[cols[0]].obj
-        return {ds["cols"][c]["name"]: owned_vals[c].obj for c in cols}
+        key = tuple(cols)
+        if key not in containers:
+            if sc.get("values_form") == "list":
+                containers[key] = [owned_vals[c].obj for c in cols]
+            else:
+                containers[key] = {ds["cols"][c]["name"]: owned_vals[c].obj for c in cols}
+            containers[("snap",) + key] = _container_snapshot(containers[key])
+        return containers[key]
+
+    def check_containers(opname, extra):
+        for key, cont in list(containers.items()):
+            if key and key[0] == "snap":
+                continue
+            if _container_snapshot(cont) != containers[("snap",) + key]:
+                rec["violations"].append(
+                    {
+                        "site": {"property": PROP, "check": "container_unchanged", "op": opname, "outcome": "input_mutated"},
+                        "features": dict(feats_base, **extra),
+                        "expected": "the caller's list / dict of value columns holds the same objects as before",
+                        "actual": f"{type(cont).__name__} changed: {_container_snapshot(cont)[:2]}",
+                    }
+                )
+                containers[("snap",) + key] = _container_snapshot(cont)
 
     def construct():
         return GroupBy(keys_obj(), sort=sort, factorize_large_inputs_in_chunks=st["chunk_flag"])
@@ -599,6 +631,7 @@ def execute(sc, sched: Choices, cls, cfg):
             probes.add("failing_step_checked")
         extra = {"step_kind": kind, "outcome_of_step": r1[0], "fault": ctxr.fault_fired or "none", "mask": mask_desc["kind"]}
         ok_inputs = check_inputs("inputs_unchanged", opname, extra)
+        check_containers(opname, extra)
         if fingerprints([owned_codes]) != fp_codes0:
             rec["violations"].append({"site": {"property": PROP, "check": "inputs_unchanged", "op": opname, "outcome": "input_mutated"}, "features": dict(feats_base, **extra), "expected": "codes buffer unchanged", "actual": "codes changed"})
         if owned_mask is not None and fingerprints([owned_mask]) != fp_mask0:
